@@ -163,6 +163,14 @@ def _roundtrip(lg, res, task, a, tag):
             res.violation(f'C15/{task[0]}/mv_str/{tag}', {'task': list(task)}, f'mv_str wrong for shape {a.shape}: {s!r} expected {exp_s!r}')
         elif not np.array_equal(np.asarray(b).reshape(-1), a.reshape(-1)) or (a.ndim == 2 and a.shape[1] > 1 and a.shape[0] > 1 and b.shape != a.shape):
             res.violation(f'C15/{task[0]}/mvarray-of-mv_str/{tag}', {'task': list(task)}, f'mvarray(mv_str(a)) != a for shape {a.shape}: {b.tolist()}')
+        # every delimiter (empty, one character, several characters, containing a newline, falsy-looking) separates the patterns verbatim
+        if a.ndim == 2:
+            cols = [''.join(ref.CHARS[c] for c in a[:, p]) for p in range(a.shape[1])]
+            for delim in ('', ' ', ',', ', ', ' | ', '\r\n', ';\n', '--', '0'):
+                got = lg.mv_str(a, delim=delim)
+                if got != delim.join(cols):
+                    res.violation(f'C15/{task[0]}/mv_str-delim/{delim!r}/{tag}', {'task': list(task)}, f'mv_str(a, delim={delim!r}) = {got!r} expected {delim.join(cols)!r} for shape {a.shape}')
+                res.count('mv_str_delims')
         # bparray(strings) == mv_to_bp(mvarray(strings))
         bb = lg.bparray(s) if a.ndim == 1 else lg.bparray(*s.split('\n'))
         if a.ndim == 1 or (a.shape[1] > 1 and a.shape[0] > 1):
